@@ -4,7 +4,7 @@ set -e
 d=/tmp/wt_$1
 git -C /repo worktree add --detach $d HEAD >/dev/null 2>&1
 cd $d
-git rm -q $(git ls-files | grep zz_contracts_verif.go) >/dev/null
+git rm -q $(git ls-files | grep -E "zz_contracts.*_verif.go") >/dev/null
 git -c user.name=builder -c user.email=b@example.invalid commit -qm "scratch base" >/dev/null
 # squash history so earlier commits (with contract files) are not reachable from HEAD
 t=$(git commit-tree HEAD^{tree} -m "scratch base"); git reset -q --hard $t
